@@ -668,6 +668,15 @@ RULES = {
                  "while let Some ( & 0 ) = $v . last ( ) { $$s }", "while __last_is_zero ( & $v ) { $$s }"),
     "R10e": Rule("R10e", "for &c in V { BODY } (V: &[T], T: Copy) -> index loop with `let c = V[i]`",
                  "for & $c in $v { $$body }", "{ let mut i__ = 0 ; while i__ < $v . len ( ) { let $c = $v [ i__ ] ; i__ += 1 ; $$body } }"),
+    "R3ma": Rule("R3ma", "a %= m; (a: BigUint, m: &BigUint) -> RemAssign::rem_assign(&mut a, m);", "$a %= m ;", "RemAssign :: rem_assign ( & mut $a , m ) ;"),
+    "R3ms": Rule("R3ms", "a -= m; (a: BigUint, m: &BigUint) -> SubAssign::sub_assign(&mut a, m);", "$a -= m ;", "SubAssign :: sub_assign ( & mut $a , m ) ;"),
+    "R3mr": Rule("R3mr", "(rr.shl(E)) % m -> Rem::rem(rr.shl(E), m)", "( rr . shl ( $$e ) ) % m", "Rem :: rem ( rr . shl ( $$e ) , m )"),
+    "R10q": Rule("R10q", "for i in (0..E).rev() { BODY } -> { let mut i__ = E; while i__ > 0 { i__ -= 1; let i = i__; BODY } }  (std: Rev<Range<usize>> yields E-1, .., 0)",
+                 "for $i in ( 0 .. $$e ) . rev ( ) { $$body }", "{ let mut i__ = $$e ; while i__ > 0 { i__ -= 1 ; let $i = i__ ; $$body } }"),
+    "R10p": Rule("R10p", "for i in 2..1 << n { BODY } -> { let mut i__ = 2; let e__ = 1 << n; while i__ < e__ { let i = i__; i__ += 1; BODY } }  (std: Range<usize> yields 2, .., e-1; end evaluated once)",
+                 "for $i in 2 .. 1 << n { $$body }", "{ let mut i__ = 2 ; let e__ = 1 << n ; while i__ < e__ { let $i = i__ ; i__ += 1 ; $$body } }"),
+    "R16ge": Rule("R16ge", "if zz >= *m { -> if !(zz.cmp(&*m) == Less) {  (std default `PartialOrd::ge` is `matches!(partial_cmp, Some(Greater | Equal))`, partial_cmp = Some(cmp) for BigUint)",
+                  "if zz >= * m {", "if ! ( zz . cmp ( & * m ) == core :: cmp :: Ordering :: Less ) {"),
     "R17": Rule("R17", "self.sign.cmp(&other.sign) -> sign_cmp(&self.sign, &other.sign)",
                 "self . sign . cmp ( & other . sign )", "sign_cmp ( & self . sign , & other . sign )"),
     "R2c": Rule("R2c", "if let Some(&x) = E { S } -> if let Some(x_r__) = E { let x = *x_r__; S }  (Copy element type)",
